@@ -193,7 +193,7 @@ type c13Case struct {
 	Class     string     `json:"class"`
 	Tms       string     `json:"tms"`
 	IdsArg    string     `json:"ids_arg"` // the -z argument as given
-	Ids       []int      `json:"ids"`
+	Ids       []int      `json:"ids"`     // as listed: an id may occur more than once (the targets are the DISTINCT ids)
 	TmsOK     bool       `json:"tms_ok"`
 	Target    string     `json:"target"` // the -t argument as given ("{ABS}" stands for the run directory)
 	Mkdirs    []string   `json:"mkdirs"`
@@ -335,9 +335,9 @@ func genC13Table(r *rand.Rand, idx int, t tmsInfo, ids []int, kind string, n int
 		nattr = 2 // fid + 2 = 3 attribute values: a slice built by append has spare capacity (cap 4)
 	}
 	cols := []colSpec{pk}
-	types := []string{"INTEGER", "REAL", "TEXT"}
+	types := []string{"INTEGER", "REAL", "TEXT", "DATETIME", "DATETIME", "DATE", "TIMESTAMP"}
 	for i := 0; i < nattr; i++ {
-		cols = append(cols, colSpec{Name: fmt.Sprintf("c%d", i), Type: types[r.Intn(3)]})
+		cols = append(cols, colSpec{Name: fmt.Sprintf("c%d", i), Type: types[r.Intn(len(types))]})
 	}
 	gpos := len(cols)
 	if r.Intn(2) == 0 {
@@ -426,6 +426,14 @@ func genC13Case(r *rand.Rand, id int, class string) c13Case {
 	}
 	perm := r.Perm(t.maxID + 1)
 	k.Ids = append([]int{}, perm[:nids]...)
+	if class != "hazard" && r.Intn(4) == 0 {
+		// one of the ids listed two or three times, anywhere in the list: [6,5,6], [5,5], [4,7,7,7], [3,9,3,1]
+		again := k.Ids[r.Intn(len(k.Ids))]
+		for j := 1 + r.Intn(2); j > 0; j-- {
+			pos := r.Intn(len(k.Ids) + 1)
+			k.Ids = append(k.Ids[:pos:pos], append([]int{again}, k.Ids[pos:]...)...)
+		}
+	}
 	b, _ := json.Marshal(k.Ids)
 	k.IdsArg = string(b)
 	tg := c13Targets[r.Intn(len(c13Targets))]
@@ -477,7 +485,7 @@ func genC13Case(r *rand.Rand, id int, class string) c13Case {
 	case "pre-existing + overwrite", "pre-existing, no overwrite", "invalid tms":
 		k.Overwrite = class != "pre-existing, no overwrite"
 		// earlier content in (some of) the target files: tables of the same names with other rows, or other tables
-		for i, tid := range k.Ids {
+		for i, tid := range distinctIds(k.Ids) {
 			if i > 0 && r.Intn(3) == 0 {
 				continue
 			}
@@ -495,6 +503,20 @@ func genC13Case(r *rand.Rand, id int, class string) c13Case {
 		}
 	}
 	return k
+}
+
+// distinctIds: the ids of a list, each once (order of first mention).  main.go keeps its targets in a map keyed by
+// id, and processing.ProcessFeatures takes the ids it asks the library for from that map: "[6,5,6]" is "[6,5]".
+func distinctIds(ids []int) []int {
+	seen := map[int]bool{}
+	var o []int
+	for _, id := range ids {
+		if !seen[id] {
+			seen[id] = true
+			o = append(o, id)
+		}
+	}
+	return o
 }
 
 // expectedTargetPath: "_<id> inserted before the extension", computed without package path's Split/Ext/Join;
@@ -631,7 +653,7 @@ func insertSourceRows(h *gs.Handle, t c13Table) error {
 				}
 				args = append(args, sb)
 			} else {
-				args = append(args, f.Attrs[ai].goValue())
+				args = append(args, f.Attrs[ai].srcValue(c)) // date/times as the GeoPackage text forms
 				ai++
 			}
 		}
@@ -723,7 +745,15 @@ func readTargetFile(file string) ([]c13OTable, error) {
 	rows.Close()
 	for i := range tabs {
 		t := &tabs[i]
-		rows, err := db.Query(fmt.Sprintf(`SELECT * FROM "%s" ORDER BY rowid`, t.Name))
+		cols, _, err := tableInfo(db, t.Name)
+		if err != nil {
+			return nil, err
+		}
+		typeOf := map[string]string{}
+		for _, c := range cols {
+			typeOf[c.Name] = c.Type
+		}
+		rows, err := db.Query(fmt.Sprintf(`SELECT %s FROM "%s" ORDER BY rowid`, selectList(cols), t.Name)) // date/time cells raw
 		if err != nil {
 			return nil, err
 		}
@@ -741,7 +771,7 @@ func readTargetFile(file string) ([]c13OTable, error) {
 			row := make([]c13Cell, len(t.Cols))
 			for k, n := range t.Cols {
 				if n != t.GCol {
-					row[k] = c13Cell{V: valOf(vals[k])}
+					row[k] = c13Cell{V: valOfCol(vals[k], typeOf[n])}
 					continue
 				}
 				row[k].IsGeom = true
@@ -906,7 +936,8 @@ func c13Expected(k c13Case) (c13Expect, error) {
 		return e, err
 	}
 	cfg := snap.Config{KeepPointsAndLines: k.Keep, IgnoreOutsideGrid: k.Ignore, ReverseWindingOrder: k.Reverse}
-	for _, id := range k.Ids {
+	ids := distinctIds(k.Ids)
+	for _, id := range ids {
 		e.Rows[id] = make([][]c13ExpRow, len(k.Tables))
 	}
 	for ti, t := range k.Tables {
@@ -916,7 +947,7 @@ func c13Expected(k c13Case) (c13Expect, error) {
 			if err != nil {
 				return e, err
 			}
-			d := libraryDeliver(g, tms, k.Ids, cfg)
+			d := libraryDeliver(g, tms, ids, cfg)
 			if d.Panics {
 				e.Panics = true
 				ds = append(ds, d)
@@ -929,7 +960,7 @@ func c13Expected(k c13Case) (c13Expect, error) {
 				}
 				d.Out[id] = ng
 			}
-			for _, id := range k.Ids {
+			for _, id := range ids {
 				if og, ok := d.Out[id]; ok {
 					e.Rows[id][ti] = append(e.Rows[id][ti], c13ExpRow{Attrs: f.Attrs, G: og})
 				}
@@ -996,7 +1027,7 @@ func c13Oracle(k c13Case, run c13Run, exp *c13Expect, rundir string) []c12Proble
 	if len(run.Others) > 0 {
 		bad("a successful run leaves files that are not GeoPackages behind (journal?)", run.Others, nil)
 	}
-	// exactly one file per id, named by inserting _<id> before the extension
+	// exactly one file per DISTINCT requested id, named by inserting _<id> before the extension
 	want := map[string]int{}
 	for _, id := range k.Ids {
 		want[resolve(expectedTargetPath(k.Target, id))] = id
@@ -1118,7 +1149,7 @@ func c13CoqCase(k c13Case, run c13Run, exp *c13Expect, rundir string) string {
 				out := "None"
 				if exp != nil && ti < len(exp.Deliv) && fi < len(exp.Deliv[ti]) && !exp.Deliv[ti][fi].Panics {
 					var outs []string
-					for _, id := range k.Ids {
+					for _, id := range distinctIds(k.Ids) {
 						if g, ok := exp.Deliv[ti][fi].Out[id]; ok {
 							outs = append(outs, fmt.Sprintf("(%s, %s)", hc.CoqZ(int64(id)), coqGeomF(g)))
 						}
@@ -1191,15 +1222,15 @@ func genPath(r *rand.Rand) string {
 
 func runC13(c *hc.Ctx) error {
 	c.CorrInit("Texel.Corr.C13", "theories/Corr/C13.v", 12)
-	c.Sum.Rule = "random source GeoPackages (1-3 tables: polygon / multipolygon / point / linestring, 0-4 attribute columns, geometry column anywhere, 0-22 features; " +
+	c.Sum.Rule = "random source GeoPackages (1-3 tables: polygon / multipolygon / point / linestring, 0-4 attribute columns INTEGER / REAL / TEXT / DATETIME / DATE / TIMESTAMP (date/times written to the source in the GeoPackage text forms 2023-05-17 and 2023-05-17T23:59:59.891Z: midnight, whole seconds, non-zero milliseconds, nanoseconds, before 1970, NULL), geometry column anywhere, 0-22 features; " +
 		"polygons: blobs of a few pixels of a requested level, sub-pixel (collapse), dumbbells whose corridor is below a coarse pixel (split), with holes, (partly) outside the grid) " +
-		"x {NetherlandsRDNewQuad, WebMercatorQuad} x 1-3 distinct ids x page size {default, 1..7} x keep/ignore-outside/reverse flags (long names or aliases) x target paths (12 fixed shapes + random stems over [abgkp.-_09GP] with extensions {.gpkg,'',.pkg,.g,.GPKG,'.',.sqlite}) " +
+		"x {NetherlandsRDNewQuad, WebMercatorQuad} x 1-3 distinct ids, in a quarter of the cases one of them listed two or three times anywhere in the list ([6,5,6], [5,5], [4,7,7,7]) x page size {default, 1..7} x keep/ignore-outside/reverse flags (long names or aliases) x target paths (12 fixed shapes + random stems over [abgkp.-_09GP] with extensions {.gpkg,'',.pkg,.g,.GPKG,'.',.sqlite}) " +
 		"(relative, ./, nested, dots in directories, several dots, no extension, hidden file, unclean a//b and a/../b, absolute) x " +
 		"{no pre-existing files, overwrite on/off | pre-existing files with other content + overwrite | pre-existing + no overwrite (fails) | invalid tile matrix set or ids | missing source}; " +
 		"a hazard class (4 ids, page size 1, 3 attribute values, 150+ polygons, -race build); PathCases: random strings over [a-zA-Z0-9_.-/] incl. '.', '..', '//'. " +
 		"distinct = distinct (class, tms, ids, flags, target shape, table kinds); non-trivial = at least one polygon feature whose result differs between ids or is dropped/split"
-	c.Sum.Oracle = "exit status; exactly one GeoPackage per id at the path with _<id> inserted before the extension and no other new file; per file the source's tables in order; " +
-		"polygon / multipolygon tables: per source feature in source order the attributes and EXACTLY the geometry snap.SnapPolygon returns for that id under the given flags " +
+	c.Sum.Oracle = "exit status; exactly one GeoPackage per DISTINCT requested id (an id listed more than once counts once: exit 0, every file complete) at the path with _<id> inserted before the extension and no other new file; per file the source's tables in order; " +
+		"polygon / multipolygon tables: per source feature in source order the attributes (date/time cells read raw from the target and compared with the source value as INSTANTS, to the nanosecond: the unchanged tool already rewrites their text layout) and EXACTLY the geometry snap.SnapPolygon returns for that id under the given flags " +
 		"(one polygon, or a multipolygon when several; multipolygon parts merged in part order; omitted when nothing is returned), other tables row-for-row copies; " +
 		"rtree entries = non-empty geometries; with -overwrite no table or row of an earlier file survives; invalid tile matrix set / ids or a missing source: non-zero exit, no file created, removed or changed; " +
 		"library panic (outside the grid without -iog): non-zero exit; the -race build reports no data race"
@@ -1210,7 +1241,7 @@ func runC13(c *hc.Ctx) error {
 		"modelled: SQLite, go-sqlite3, the GeoPackage library, the verif SpatiaLite stand-in (as C12)",
 		"geometries are compared after one encode/decode through the GeoPackage binary codec (exact on float64)",
 	}
-	c.Sum.Assumptions = []string{"target paths over a safe alphabet (no '%')", "distinct tile matrix ids", "page size > 0", "attribute values match the column affinity; column names need no quoting"}
+	c.Sum.Assumptions = []string{"target paths over a safe alphabet (no '%')", "the tile matrix ids may be listed with repetitions: the request is the set of distinct ids", "date/time attributes are ISO 8601 texts in UTC in columns declared DATE / DATETIME / TIMESTAMP (the types the SQLite driver converts); equality of such a cell = equality of the instant", "page size > 0", "attribute values match the column affinity; column names need no quoting"}
 
 	scratch, err := os.MkdirTemp("", "verif-c13-")
 	if err != nil {
@@ -1311,6 +1342,20 @@ func runC13(c *hc.Ctx) error {
 		c.Sum.Evaluations++
 		c.Count("class: " + k.Class)
 		c.Count("tms: " + k.Tms)
+		if nd := len(distinctIds(k.Ids)); nd < len(k.Ids) {
+			c.Count(fmt.Sprintf("id list with repetitions: %d entries, %d distinct ids", len(k.Ids), nd))
+		}
+		ntime := 0
+		for _, t := range k.Tables {
+			for _, col := range t.Spec.Cols {
+				if isTimeType(col.Type) && len(t.Feats) > 0 {
+					ntime++
+				}
+			}
+		}
+		if ntime > 0 {
+			c.Count("cases with date/time attribute columns (DATE / DATETIME / TIMESTAMP) in a non-empty table")
+		}
 		if k.Race && binRace != "" {
 			c.Count("runs under the race detector")
 		}
@@ -1321,7 +1366,7 @@ func runC13(c *hc.Ctx) error {
 					switch {
 					case d.Panics:
 						panics++
-					case len(d.Out) < len(k.Ids):
+					case len(d.Out) < len(distinctIds(k.Ids)):
 						dropped++
 					default:
 						kept++
